@@ -1655,6 +1655,49 @@ Proof.
   - vm_compute. discriminate.
 Qed.
 
+(* ---- the tree with the end-of-file repair only (cfg_eof_only) ---- *)
+Lemma print_file_roundtrip_eof_general cf toks :
+  fix_eof cf = true -> wf_toks toks -> guard cf toks ->
+  print_file_rt cf toks = Some (source_text toks).
+Proof.
+  intros Hf Hwf Hg. destruct (print_file_general cf toks Hwf Hg) as [ix [pend [out [_ [_ [Hs Hp]]]]]].
+  rewrite Hp. unfold finish_file. rewrite Hf. now rewrite Hs.
+Qed.
+
+Lemma print_file_roundtrip_eof_only_lemma toks :
+  wf_toks toks -> guard cfg_eof_only toks -> print_file_rt cfg_eof_only toks = Some (source_text toks).
+Proof. now apply print_file_roundtrip_eof_general. Qed.
+
+Lemma emit_roundtrip_id_eof_only_lemma toks ix :
+  wf_toks toks -> guard cfg_eof_only toks -> build cfg_eof_only toks = Some ix ->
+  emit_roundtrip ix toks = flatten toks.
+Proof. intros Hwf Hg Hb. now apply (roundtrip_general cfg_eof_only toks ix Hwf Hg Hb). Qed.
+
+Lemma trivia_partition_eof_only_lemma toks ix :
+  wf_toks toks -> guard cfg_eof_only toks -> build cfg_eof_only toks = Some ix ->
+  tree_trivia ix toks = pieces (trivia_of toks).
+Proof. intros Hwf Hg Hb. now apply (trivia_partition_lemma_general cfg_eof_only toks ix Hwf Hg Hb). Qed.
+
+Lemma eof_only_refuted :
+  (exists toks, wf_toks toks /\ print_file_rt cfg_eof_only toks <> Some (source_text toks))
+  /\ (exists toks ix, wf_toks toks /\ build cfg_eof_only toks = Some ix /\ emit_roundtrip ix toks <> flatten toks)
+  /\ (exists toks ix, wf_toks toks /\ build cfg_eof_only toks = Some ix /\ tree_trivia ix toks <> pieces (trivia_of toks))
+  /\ (exists toks ds tail, wf_toks toks /\ print_decls cfg_eof_only toks = Some (ds, tail)
+                           /\ concat ds ++ tail <> source_text toks).
+Proof.
+  assert (Hw : forall l, (forallb (fun k => negb (k =? 0)) (all_ids l) = true) -> NoDup (all_ids l) -> wf_toks l).
+  { intros l H1 H2. split; [exact H2|]. intros Hi. rewrite forallb_forall in H1. specialize (H1 0 Hi). discriminate H1. }
+  split; [|split; [|split]].
+  - exists wit_drop. split; [apply Hw; [reflexivity|]|vm_compute; discriminate].
+    vm_compute. repeat constructor; intros H; repeat (destruct H as [H|H]; try discriminate H); exact H.
+  - exists wit_cv. eexists. split; [apply Hw; [reflexivity|]|split; [vm_compute; reflexivity|vm_compute; discriminate]].
+    vm_compute. repeat constructor; intros H; repeat (destruct H as [H|H]; try discriminate H); exact H.
+  - exists wit_drop. eexists. split; [apply Hw; [reflexivity|]|split; [vm_compute; reflexivity|vm_compute; discriminate]].
+    vm_compute. repeat constructor; intros H; repeat (destruct H as [H|H]; try discriminate H); exact H.
+  - exists wit_decl. eexists. eexists. split; [apply Hw; [reflexivity|]|split; [vm_compute; reflexivity|vm_compute; discriminate]].
+    vm_compute. repeat constructor; intros H; repeat (destruct H as [H|H]; try discriminate H); exact H.
+Qed.
+
 (* ---- Print on each top-level declaration ---- *)
 Lemma cut_decls_acc l : forall starts cur acc,
   cut_decls l starts cur acc = acc ++ cut_decls l starts cur [].
